@@ -3,6 +3,8 @@ import itertools
 import json
 import os
 
+import re
+
 from gsa import cmprules, facts, flags, ir, paths, predeval, summary
 from gsa.facts import Unit, rel, AnalysisBroken
 from gsa.report import Check
@@ -430,6 +432,40 @@ def run_cache_protocol(chk, F):
            % (ir.show(ifs[0]['cond']) if ifs else '?'), key='E2|maybe_initialize_filtration|empty-means-not-computed')
 
 
+def run_cache_state(chk, F):
+    """E2-cache-state: the explicit initialiser takes an ignorer: when it skips every simplex (all values infinite with
+    initialize_filtration(true), or a custom ignorer) the computed cache is empty for a non-empty complex. A lazy
+    test that reads "empty" as "not computed" then recomputes with the default order and no ignorer: the ignored
+    simplices reappear in filtration_simplex_range(). Wherever an initialiser can skip simplices, "computed" has to be
+    represented by something else than the emptiness of the vector."""
+    inits = [f for f in F.funcs('initialize_filtration', unit='st_tbb') if len(f.get('params', [])) == 2]
+    lazy = F.funcs('maybe_initialize_filtration', unit='st_tbb')
+    if len(inits) != 1 or len(lazy) != 1:
+        raise AnalysisBroken('C03: initialize_filtration(Comparator, Ignorer) / maybe_initialize_filtration not found')
+    f = inits[0]
+    ign = f['params'][1]['n']
+    skips = False
+    for lp in ir.walk(f['body']):
+        if lp.get('k') != 'CXXForRangeStmt':
+            continue
+        pushes = ir.contains(lp.get('body'), lambda y: ir.is_call(y) and ir.call_name(y) in ('push_back', 'emplace_back')
+                             and 'filtration_vect_' in ir.show(ir.call_receiver(y) or {}))
+        guarded = ir.contains(lp.get('body'), lambda y: y.get('k') == 'IfStmt' and ign in ir.show(y.get('cond')))
+        if pushes and guarded:
+            skips = True
+    g = lazy[0]
+    ifs = [x for x in ir.walk(g['body']) if x.get('k') == 'IfStmt' and
+           ir.contains(x.get('then'), lambda y: ir.is_call(y) and ir.call_name(y) == 'initialize_filtration')]
+    by_emptiness = bool(ifs) and re.sub(r'\s', '', ir.show(ifs[0]['cond'])) in (
+        'filtration_vect_.empty()', '(filtration_vect_.size()==0)', '!filtration_vect_.size()')
+    ok = not (skips and by_emptiness)
+    chk.ob('E2-cache-state', 'an empty cache computed with an ignorer is not taken for "not computed"',
+           '%s:%d' % (H, g['line']), ok, '' if ok else 'initialize_filtration(comparator, %s) can leave filtration_vect_ '
+           'empty for a non-empty complex and maybe_initialize_filtration recomputes whenever it is empty: after '
+           'initialize_filtration(true) on a complex whose values are all infinite, filtration_simplex_range() lists '
+           'every simplex' % ign, key='E2|maybe_initialize_filtration|empty-is-ambiguous')
+
+
 def run_lifetimes(chk, F):
     """unify_lifetimes (min) and intersect_lifetimes (max) for arithmetic values: on the three relations of (f1, f2)
     the helper overwrites f1 and returns true exactly when f1 changes (NaN excluded, as the property states).
@@ -503,6 +539,7 @@ def run(tier, replay=None):
     run_cache(chk, F)
     run_traversal(chk, F)
     run_cache_protocol(chk, F)
+    run_cache_state(chk, F)
     run_lifetimes(chk, F)
     run_cache_readers(chk, F)
     run_prune_rules(chk, F)
